@@ -51,7 +51,7 @@ ASSUMPTIONS = [
 TYPES = gm.TYPES
 EP = ("ctor", "dict", "attributes", "json")
 ORACLES = ("accept_iff_valid", "entry_points_agree", "no_object_on_reject", "normal_form", "class_matches_tag",
-           "json_roundtrip")
+           "json_roundtrip", "max_frequency_is_the_bound")
 
 MAXI = int(MAXF)
 ALPHA_F = [0.0, 1.0, 2.0, 3.0, -1.0, float(MAXI), float(MAXI + 1)]
@@ -675,6 +675,43 @@ def blocks(tier):
     for space in ("flat", "wrap", "tags", "nested"):
         out += [{"space": space, "tier": tier, "shard": [i, nb[space]]} for i in range(nb[space])]
     out.append({"space": "precision", "tier": tier, "shard": [0, 1]})
+    out.append({"space": "constant", "tier": tier, "shard": [0, 1]})
+    return out
+
+
+def constant_cases():
+    """The bound the validators enforce is the public constant: for every type with a frequency leaf, the example structure with
+    that leaf set to every public spelling of MAX_FREQUENCY is accepted and with MAX_FREQUENCY + 1 rejected (no reference
+    to the model's own copy of the constant)."""
+    import soundevent.data.geometries as geoms
+    spellings = [("data.MAX_FREQUENCY", data.MAX_FREQUENCY), ("data.geometries.MAX_FREQUENCY", geoms.MAX_FREQUENCY)]
+
+    def put(c, v, state):
+        if isinstance(c, list):
+            return [put(y, v, state) for y in c]
+        if c == 3.0 and not state[0]:
+            state[0] = True
+            return v
+        return c
+    for t in TYPES:
+        if t in ("TimeStamp", "TimeInterval"):
+            continue
+        for name, m in spellings:
+            for delta, exp in ((0, "accept"), (1, "reject")):
+                yield {"sp": "constant", "type": t, "spelling": name, "delta": delta, "expect": exp,
+                       "c": put(EXAMPLES[t], float(m) + delta, [False])}
+
+
+def run_constant_case(case):
+    out = Out(case)
+    t = case["type"]
+    r = _try(lambda: GEOM_CLASSES[t](coordinates=case["c"]))
+    got = _label(r)
+    out.expect("max_frequency_is_the_bound", got == case["expect"], got, case["expect"],
+               {"type": t, "spelling": case["spelling"], "at": "MAX" if case["delta"] == 0 else "MAX+1"})
+    out.expect("max_frequency_is_the_bound", float(data.MAX_FREQUENCY) == float(gm.MAX_FREQUENCY),
+               data.MAX_FREQUENCY, gm.MAX_FREQUENCY, {"type": "-", "spelling": "data.MAX_FREQUENCY", "at": "documented value"})
+    out.klass = "constant:%s" % got
     return out
 
 
@@ -691,6 +728,9 @@ def run_block(block, rec):
     elif sp == "precision":
         for c in precision_structs():
             eval_struct(c, None, rec)
+    elif sp == "constant":
+        for case in constant_cases():
+            rec.add(run_constant_case(case))
     elif sp == "tags":
         for case in itertools.islice(tag_cases(tier), i, None, n):
             rec.add(run_tag_case(case))
@@ -704,4 +744,6 @@ def replay_case(case):
     if case["sp"] == "struct":
         c = case["c"]
         return run_one(c, json.dumps(c), case["tag"], case)
+    if case["sp"] == "constant":
+        return run_constant_case(case)
     return run_tag_case(case)
